@@ -69,6 +69,16 @@ def check_value(v: str, dialect: str, kind: str, opts: dict):
         if kind == "ident":
             sql = gen(exp.to_identifier(v, quoted=True), dialect, opts)
             return single_token(dialect, sql, v, {TokenType.IDENTIFIER, TokenType.VAR, TokenType.STRING})
+        if kind == "ident_auto":
+            # an identifier WITHOUT the quoted flag: the generator decides. Emitted bare it is the caller's text and not
+            # judged; where the generator promises to quote by itself (identify=True; a name starting with a digit in a
+            # dialect whose identifiers cannot) the result must be exactly one identifier token named v.
+            sql = gen(exp.Identifier(this=v), dialect, opts)
+            D = Dialect.get_or_raise(d)
+            must_quote = opts.get("identify") is True or (not D.IDENTIFIERS_CAN_START_WITH_DIGIT and v[:1].isdigit())
+            if not must_quote:
+                return None
+            return single_token(dialect, sql, v, {TokenType.IDENTIFIER, TokenType.VAR, TokenType.STRING})
         if kind == "raw":
             sql = gen(exp.RawString(this=v), dialect, opts)
             return single_token(dialect, sql, v, STRINGISH, raw=True)
@@ -127,7 +137,7 @@ def single_token(dialect, sql, v, types, raw=False, allow_prefix=False):
     return None
 
 
-KINDS = ["str", "ident", "embedded", "comment", "raw", "national"]
+KINDS = ["str", "ident", "ident_auto", "embedded", "comment", "raw", "national"]
 OPTS = {"default": {}, "pretty": {"pretty": True}, "identify": {"identify": True}}
 
 
@@ -157,10 +167,13 @@ def worker(shard, nshards, dialects, atoms, L, Lfull):
             for d in dialects:
                 nontriv = any(c in special_by_dialect[d] for c in v)
                 for kind in KINDS:
-                    if ln > Lfull and kind not in ("str", "ident"):
-                        continue  # beyond Lfull only the two core kinds are enumerated
+                    if ln > Lfull and kind not in ("str", "ident", "ident_auto"):
+                        continue  # beyond Lfull only the core kinds are enumerated
                     for on, opts in OPTS.items():
-                        if on != "default" and (ln > 2 or kind in ("raw", "national")):
+                        if kind == "ident_auto":
+                            if on == "pretty" or (on == "default" and ln > 2):
+                                continue   # identify=True at every length (that is where the generator quotes by itself)
+                        elif on != "default" and (ln > 2 or kind in ("raw", "national")):
                             continue
                         res["evaluations"] += 1
                         if nontriv and on == "default" and kind == "str":
@@ -234,7 +247,7 @@ def run(ctx: Ctx) -> None:
             "evaluations": res["evaluations"],
             "distinct_nontrivial": res["nontrivial"],
             "rule": f"every string of length <= {L} (string literal, quoted identifier) / <= {Lfull} (all kinds) over the {len(atoms)}-atom adversarial alphabet (computed from all dialects' "
-                    "tokenizers) x 34 dialects x kinds (string literal, quoted identifier, value embedded in SELECT..AS..FROM..WHERE, "
+                    "tokenizers) x 34 dialects x kinds (string literal, quoted identifier, identifier without the quoted flag under identify=True / default, value embedded in SELECT..AS..FROM..WHERE, "
                     "comment at 3 positions, raw string, national string) x option sets; plus every comment text of length <= L+1 over the 8 comment-marker atoms; non-trivial = (value, dialect) where the value "
                     "contains a character that is a delimiter / escape / control character in that dialect.",
             "alphabet": atoms,
